@@ -59,7 +59,10 @@ RULE = ("fixed families (never queried / queried without domain / with explicit 
         "head_of infers through the role taker, query-free) x 4-5 iterations + random loop bodies of 2-9 operations "
         "(drops without a sweep, churn) + random query-free role bodies + long-lived roots holding transients that are "
         "reached by queries over the root type through flatten(root.knows) + evaluations that are requested at one point "
-        "and consumed at a later one, with the number of dead wrappers probed after the consumption; non-trivial = the body "
+        "and consumed at a later one, with the number of dead wrappers probed after the consumption + evaluations SUSPENDED "
+        "after one or two results while instances die (qstart / qnext / drop / qdrain) + queries whose condition is a "
+        "user-defined Predicate subclass (plain, flagged is_expensive) or a symbolic function + rule queries with an Add "
+        "conclusion (selected variable declared or inferred); non-trivial = the body "
         "creates an instance and relates or queries it; distinct by case text")
 
 
@@ -146,6 +149,44 @@ def _families():
                          ["qdrain", 1], ["drop", 1], ["query", c]], "deferred"))
             out.append(([["new", 0, c], ["qstart", 1, c], ["qstart", 2, 0], ["drop", 0], ["qdrain", 2], ["new", 1, c],
                          ["qdrain", 1]], "deferred"))
+        # an instance DIES WHILE AN EVALUATION reading its class IS SUSPENDED: after the evaluation's sweep (first next()),
+        # before its lazy walk of the class list reaches the wrapper; the next ordinary sweep must remove the wrapper
+        for c in (1, 2, 7, 9):
+            base = [["new", 0, c], ["new", 1, c], ["new", 2, c]]
+            out.append((base + [["qstart", 1, c], ["qnext", 1], ["drop", 2], ["qdrain", 1]], "suspended"))
+            out.append((base + [["qstart", 1, 0], ["qnext", 1], ["drop", 1], ["drop", 2], ["qdrain", 1], ["query", c]],
+                        "suspended"))
+            out.append((base + [["qstart", 1, c], ["qnext", 1], ["qnext", 1], ["drop", 0], ["drop", 2], ["churn", 10, 3, c],
+                                ["qdrain", 1]], "suspended"))
+            out.append((base + [["qstart", 1, c], ["qnext", 1], ["drop", 1], ["query", c], ["qdrain", 1]], "suspended"))
+            out.append((base + [["qstart", 1, c], ["qstart", 2, 0], ["qnext", 1], ["drop", 2], ["qnext", 2], ["drop", 1],
+                                ["qdrain", 2], ["qdrain", 1]], "suspended"))
+            # the suspended evaluation is never finished
+            out.append((base + [["qstart", 1, c], ["qnext", 1], ["drop", 2], ["drop", 1]], "suspended"))
+        out.append(([["new", 0, 2], ["new", 1, 1], ["new", 2, 2], ["set", 0, 0, 1], ["set", 0, 2, 1], ["qstart", 1, 2],
+                     ["qnext", 1], ["drop", 2], ["qdrain", 1]], "suspended"))
+        # queries whose condition is a user-defined Predicate subclass (plain / flagged is_expensive) or a symbolic
+        # function over the transient instances, without and with explicit domains
+        for c in (1, 2, 7):
+            for e in (0, 1, 2):
+                out.append(([["new", 0, c], ["new", 1, c], ["queryp", c, e]], "user-predicate"))
+                out.append(([["new", 0, c], ["new", 1, c], ["querypd", c, e, 0, 1]], "user-predicate"))
+                out.append(([["new", 0, c], ["new", 1, c], ["new", 2, c], ["queryp", 0, e], ["drop", 1], ["queryp", c, e],
+                             ["query", c]], "user-predicate"))
+        out.append(([["new", 0, 2], ["new", 1, 1], ["set", 0, 0, 1], ["queryp", 2, 1], ["queryp", 1, 1]], "user-predicate"))
+        out.append(([["pre", ["new", 900, 2]], ["new", 0, 2], ["new", 1, 2], ["queryp", 2, 1], ["querypd", 2, 0, 900, 1]],
+                    "user-predicate"))
+        # RULE queries with a conclusion (Add(p, inference(Item)(a=x))) over the transient instances; the selected variable
+        # is a declared one (let(View, None)) or the inferred one (inference(View)(): F-C20-3)
+        for c in (1, 2, 7):
+            for sel in (0, 1):
+                out.append(([["new", 0, c], ["new", 1, c], ["queryr", c, sel]], "rule-query"))
+                out.append(([["new", 0, c], ["queryr", c, sel], ["new", 1, c], ["drop", 0], ["queryr", 0, sel], ["query", c]],
+                            "rule-query"))
+                out.append(([["new", 0, c], ["queryr", 3, sel]], "rule-query"))
+        for sel in (0, 1):
+            out.append(([["new", 0, 2], ["new", 1, 1], ["set", 0, 0, 1], ["queryr", 2, sel]], "rule-query"))
+            out.append(([["new", 0, 2], ["new", 1, 1], ["set", 1, 0, 1], ["queryr", 1, sel], ["drop", 1]], "rule-query"))
         # evaluations that END ABNORMALLY (the(...) over zero / several instances: the exception is handled) or are
         # ABANDONED after the first result, followed by ordinary create / relate / query / discard rounds: whatever
         # an evaluation switches off while it runs must be switched on again however it ends
@@ -188,6 +229,33 @@ def generate(rng, tier, n):
             b = rng.randint(a, len(ops))
             ops.insert(b, ["qdrain", 77])
             ops.insert(a, ["qstart", 77, rng.choice([0, 1, 2, 2, 4])])
+        if rng.random() < 0.3:
+            # an evaluation that is SUSPENDED after one or two results while the body goes on (instances die while it is
+            # suspended), finished later or never
+            a = rng.randint(1, len(ops))
+            b = rng.randint(a, len(ops))
+            if rng.random() < 0.8:
+                ops.insert(b, ["qdrain", 78])
+            cls = rng.choice([0, 1, 2, 2, 4])
+            ops[a:a] = [["qstart", 78, cls]] + [["qnext", 78]] * rng.choice([1, 1, 2])
+            if rng.random() < 0.6:
+                # make sure something its walk has not reached yet dies while it is suspended
+                late = [op[1] for op in ops[:a] if op[0] == "new"]
+                if late:
+                    ops.insert(a + 2, ["drop", late[-1]])
+        if rng.random() < 0.3:
+            # user-defined predicates / symbolic functions as conditions; rule queries with a conclusion
+            for _k in range(rng.randint(1, 2)):
+                r = rng.random()
+                labels = [op[1] for op in ops if op[0] == "new"]
+                if r < 0.4:
+                    op = ["queryp", rng.choice([0, 1, 2, 2]), rng.choice([0, 1, 1, 2])]
+                elif r < 0.6 and labels:
+                    op = ["querypd", rng.choice([0, 1, 2]), rng.choice([0, 1, 1, 2])] + rng.sample(
+                        labels, min(len(labels), rng.randint(1, 3)))
+                else:
+                    op = ["queryr", rng.choice([0, 1, 2, 2, 3]), rng.choice([0, 0, 1])]
+                ops.insert(rng.randint(1, len(ops)), op)
         if rng.random() < 0.25:
             # an evaluation that ends abnormally / is abandoned somewhere in the body
             ops.insert(rng.randint(0, len(ops)), [rng.choice(["qfail", "qabandon"]), rng.choice([0, 1, 2, 2])])
@@ -204,6 +272,12 @@ def generate(rng, tier, n):
             tags.append("deferred")
         if any(op[0] in ("qfail", "qabandon") for op in ops):
             tags.append("abnormal-eval")
+        if any(op[0] == "qnext" for op in ops):
+            tags.append("suspended")
+        if any(op[0] in ("queryp", "querypd") for op in ops):
+            tags.append("user-predicate")
+        if any(op[0] == "queryr" for op in ops):
+            tags.append("rule-query")
         cases.append(_case(rng.choice([4, 5]), ops, tags, "random"))
     # queries that are DECLARED over let(T, None) while instances exist and are not evaluated in the body (rules and queries
     # are typically declared up-front): the instances are dropped while the query objects are still held — nothing may stay
@@ -278,7 +352,7 @@ def compare(a: str, b: str) -> bool:
 
 def nontrivial(case: Case, spec: str) -> bool:
     return ("(new" in case.line or "(churn" in case.line) and any(
-        k in case.line for k in ("(set", "(rel", "query", "evalq", "(head", "(churn", "(attach", "(qfail", "(qabandon"))
+        k in case.line for k in ("(set", "(rel", "query", "evalq", "(head", "(churn", "(attach", "(qfail", "(qabandon", "(qnext"))
 
 
 def shrink(case: Case):
